@@ -10,6 +10,7 @@ import FontVerif.Lemmas.Cmap
 import FontVerif.Lemmas.Cmap4
 import FontVerif.Lemmas.Cmap4Seg
 import FontVerif.Lemmas.Cmap4Top
+import FontVerif.Lemmas.Cmap4Iter
 import FontVerif.Lemmas.CmapNorm
 import FontVerif.Lemmas.CmapTop
 import FontVerif.Lemmas.Cmap14
@@ -320,5 +321,43 @@ theorem cmap14_iter_agrees (t : List VarSel) (hw : Wf14 t) (c sel : Nat) (v : Ma
 example : Wf14 [⟨0xFE00, some [(0x20, 3), (0x4E00, 0)], some [(0x21, 7), (0x30, 9)]⟩,
                 ⟨0xFE01, none, some [(0x41, 5)]⟩] :=
   ⟨by decide, by decide, by decide⟩
+
+/-! ### readers alone: iterator and lookup agree on every well-formed subtable -/
+
+/-- For EVERY well-formed format-4 subtable (`Wf4`: equal-length segment arrays holding ascending,
+disjoint 16-bit ranges; any deltas, range offsets and glyph id array — not only what write-fonts
+builds) `Cmap4::iter()` yields `(c, g)` exactly when `Cmap4::map_codepoint(c)` returns `g`. -/
+theorem fmt4_iter_agrees_with_lookup (t : Cmap4) (hw : Wf4 t) (c g : Nat) :
+    (c, g) ∈ iter4 t ↔ map4 t c = some g :=
+  iter4_mem_iff_map4 t hw c g
+
+/-- the same for every well-formed list of format-12 groups (`start ≤ end`, ascending, disjoint,
+no 32-bit wrap) -/
+theorem fmt12_iter_agrees_with_lookup (gs : List Group) (lb : Nat) (hok : GroupsOk lb gs)
+    (hb : GroupsBounded gs) (c g : Nat) (hc : c < 4294967296) :
+    (c, g) ∈ iter12 gs.toArray none ↔ map12 gs.toArray c = some g := by
+  rw [iter12_eq gs lb hok hb, map12_iff gs lb hok hb c g hc]
+
+example : Wf4 { endCode := #[9, 33, 0x5000, 0xFFFF], startCode := #[1, 32, 0x5000, 0xFFFF],
+                idDelta := #[0, -25568, -20473, 1], idRangeOffsets := #[8, 0, 0, 0],
+                glyphIdArray := #[3, 1, 4, 5, 6, 7, 8, 2, 9] } :=
+  ⟨rfl, ⟨by decide, fun i j hij hj => by
+    have h : ∀ j, j < 4 → ∀ i, i < j →
+        eCode { endCode := #[9, 33, 0x5000, 0xFFFF], startCode := #[1, 32, 0x5000, 0xFFFF],
+                idDelta := #[0, -25568, -20473, 1], idRangeOffsets := #[8, 0, 0, 0],
+                glyphIdArray := #[3, 1, 4, 5, 6, 7, 8, 2, 9] } i <
+        sCode { endCode := #[9, 33, 0x5000, 0xFFFF], startCode := #[1, 32, 0x5000, 0xFFFF],
+                idDelta := #[0, -25568, -20473, 1], idRangeOffsets := #[8, 0, 0, 0],
+                glyphIdArray := #[3, 1, 4, 5, 6, 7, 8, 2, 9] } j := by decide
+    exact h j hj i hij⟩, by decide⟩
+example : GroupsOk 0 [(65, 66, 5), (67, 67, 9), (0x1F600, 0x1F601, 10)] := by simp [GroupsOk]
+
+/-! ### tie between the driver's bounded enumeration and the enumeration in the theorems -/
+
+/-- the driver prints `iter12N` (first `n` items, computed without materialising malformed groups
+that span up to 2^32 code points); it is the `n`-prefix of `iter12` for all groups and limits -/
+theorem iter12N_is_prefix (gs : Array Group) (limits : Limits) (n : Nat) :
+    iter12N gs limits n = (iter12 gs limits).take n :=
+  iter12N_eq_take gs limits n
 
 end FontVerif.C08
